@@ -284,7 +284,7 @@ impl Check for C13 {
             .boxed()
     }
     fn cases(&self, tier: Tier) -> u64 {
-        tier.pick(20_000, 1_000_000)
+        tier.pick(20_000, 4_000_000)
     }
     fn run(&self, case: &Case) -> (Verdict, CaseInfo) {
         let mut info = CaseInfo::default();
